@@ -225,6 +225,32 @@ def gen_hostile_case(rng, max_len=120):
     return ops
 
 
+def kf_witness_case():
+    """the Lean refutation witness `Tins.Props.C08.kfEvs` (key_reuse_refines_fails), replayed on the real code"""
+    old = Dg("d0", 7, 1, 2, 253, 0, False, 0, bytes(range(16)), [8, 8])
+    new = Dg("d1", 7, 1, 2, 253, 0, False, 0, bytes(i + 100 for i in range(16)), [8, 8])
+    return ["case", old.op(), old.frag((0, 8), 64, False), old.frag((8, 8), 64, False), old.frag((8, 8), 64, False),
+            new.op(), new.frag((0, 8), 64, False), new.frag((8, 8), 64, False)]
+
+
+def regression_cases():
+    """one deterministic case per fixed defect (KF-C08-2..5)"""
+    p = bytes(range(1, 17))
+    q = bytes(range(101, 117))
+    out = []
+    for k2 in [(7, B, A, 253), (7, A, B, 254)]:                      # opposite direction / other protocol, same id
+        d = Dg("d0", 7, A, B, 253, 0, False, 0, p, [8, 8])
+        e = Dg("d1", k2[0], k2[1], k2[2], k2[3], 0, False, 0, q, [8, 8])
+        out.append(["case", d.op(), e.op(), d.frag((0, 8), 64, False), e.frag((8, 8), 64, False),
+                    e.frag((0, 8), 64, False), d.frag((8, 8), 64, False)])
+    d = Dg("d0", 7, A, B, 253, 0, True, 1, p, [8, 8])                # DF set on the fragments
+    out.append(["case", d.op(), d.frag((8, 8), 64, True), d.frag((0, 8), 63, True)])
+    d = Dg("d0", 7, A, B, 6, 0, False, 0, p, [8, 8])                 # 16 bytes of "TCP": allocate_pdu throws
+    out.append(["case", d.op(), d.frag((0, 8), 64, False), d.frag((8, 8), 64, False), d.frag((8, 8), 64, False),
+                d.frag((0, 8), 64, False)])
+    return out
+
+
 def hole_masked_case():
     """the byte count equals the total although there is a hole (overlap masks it): allocate_pdu's contiguity re-check"""
     p = bytes(range(1, 33))
@@ -233,17 +259,19 @@ def hole_masked_case():
             d.frag((16, 8), 9, False)]
 
 
-def exhaustive_cases(limit, rng):
-    """every partition of a 32/40-byte payload into <= 4 pieces x every arrival order x one duplicate at every position,
-    interleaved with a second datagram that differs in one key component"""
+def exhaustive_cases(limit, rng, big=False):
+    """every partition of a 32/40-byte payload into <= 4 pieces (thorough: also 56 bytes into 5 and 6 pieces) x every
+    arrival order x one duplicate at every position (or none), interleaved with a second datagram that differs in one
+    key component (direction / protocol / identification)"""
     out = []
-    for n in (32, 40):
+    plan = [(32, (1, 2, 3), (0, 1, 2)), (40, (1, 2, 3), (0, 1, 2))] + ([(56, (4, 5), None)] if big else [])
+    for n, ks, variants in plan:
         slots = list(range(8, n, 8))
-        for k in range(1, 4):
-            for cuts in itertools.combinations(slots, k):
+        for k in ks:
+            for ci, cuts in enumerate(itertools.combinations(slots, k)):
                 pts = [0] + list(cuts) + [n]
                 lens = [b - a for a, b in zip(pts, pts[1:])]
-                for variant in range(3):
+                for variant in (variants if variants is not None else ((k + ci) % 3,)):
                     payload = bytes((7 * i + n + k) % 256 for i in range(n))
                     d = Dg("d0", 7, A, B, 253, 0, variant == 1, variant, payload, lens)
                     key2 = [(7, B, A, 253), (7, A, B, 254), (8, A, B, 253)][variant]
@@ -310,17 +338,23 @@ def run(chk):
             total[k] = total.get(k, 0) + v
 
     # 1. known-finding reproducer + fixed-defect regressions (always first)
-    go([gen_reuse_case(rng) for _ in range(4)])
-    go([hole_masked_case()] + [gen_malformed_upper_case(rng) for _ in range(6 if quick else 60)])
+    go([kf_witness_case()] + [gen_reuse_case(rng) for _ in range(4)])
+    go(regression_cases() + [hole_masked_case()] + [gen_malformed_upper_case(rng) for _ in range(6 if quick else 60)])
     # 2. small-scope exhaustive
-    go(exhaustive_cases(700 if quick else 10**9, rng))
+    ex = exhaustive_cases(2500 if quick else 10**9, rng, big=not quick)
+    for i in range(0, len(ex), 20000):
+        go(ex[i:i + 20000])
+    chk.extra["exhaustive_cases"] = len(ex)
     # 3. random histories inside the hypothesis
-    n_valid = 700 if quick else 12000
-    go([gen_valid_case(rng) for _ in range(n_valid)])
-    go([gen_valid_case(rng, max_len=3000, max_pieces=40, max_dg=3) for _ in range(12 if quick else 300)])
-    go([gen_valid_case(rng, max_len=65515, max_pieces=60, max_dg=2) for _ in range(2 if quick else 40)])
+    n_valid = 4000 if quick else 100000
+    for i in range(0, n_valid, 20000):
+        go([gen_valid_case(rng) for _ in range(min(20000, n_valid - i))])
+    go([gen_valid_case(rng, max_len=3000, max_pieces=40, max_dg=3) for _ in range(40 if quick else 600)])
+    go([gen_valid_case(rng, max_len=65515, max_pieces=60, max_dg=2) for _ in range(3 if quick else 60)])
     # 4. hostile histories (model/implementation correspondence)
-    go([gen_hostile_case(rng) for _ in range(500 if quick else 10000)])
+    n_host = 3000 if quick else 80000
+    for i in range(0, n_host, 20000):
+        go([gen_hostile_case(rng) for _ in range(min(20000, n_host - i))])
     for p in problems:
         if not (total.get("spec", 0) + total.get("fault", 0)):
             chk.violation("proof obligation no longer checks: " + p[:1500], ["theorem-or-audit-failure", p[:4000]], nofail=True)
